@@ -133,6 +133,7 @@ class RunResult:
         self.nontrivial_sig_sum = 0
         self.trace_sum = 0
         self.huge_skipped = False
+        self.foreign_crashes = 0
         self.violation = None  # dict: kind: 'report'|'trap'|'hang', ...
         self.wall = 0.0
         self.worker_wall = 0.0
@@ -140,6 +141,12 @@ class RunResult:
 
 # the one multi-GiB episode of a C07/C08/C14 run (4 GiB mappings of zero
 # pages): family 99. On the unchanged tree it takes 5-20 s.
+# which checks report a crash of the worker caused by the library: a fault in
+# memory (SIGSEGV/SIGBUS) is an out-of-bounds read (C05), a use after free of
+# the needle (C16) and an abnormal termination (C14); any other fatal signal
+# (abort from an unsafe-precondition check, illegal instruction, ...) is C14's
+TRAP_OWNERS_MEM = ("C05", "C14", "C16")
+TRAP_OWNERS_ABORT = ("C14",)
 HUGE_PROFILES = ("C07", "C08", "C14")
 HUGE_FAMILY = 99
 HUGE_BOUND_S = 240
@@ -262,6 +269,22 @@ def run_workers(exe, prop, seed, total, chunk, want_hashes=False, timeout_per_ch
                 if not trap:
                     trap = [l for l in err.splitlines() if l.startswith("TRAP")][-1] if "TRAP" in err else ""
                 info = parse_trap(trap)
+                owners = TRAP_OWNERS_MEM if info.get("signal") in (7, 11) else TRAP_OWNERS_ABORT
+                if prop not in owners and isinstance(info.get("family"), int) and lo <= info["family"] < hi:
+                    # the library crashed the process. That is an over-read
+                    # (C05), a use after free (C16) or an abort (C14), and those
+                    # checks report it; it is not what this property speaks of.
+                    # The family is left out and the rest of the range runs.
+                    res.foreign_crashes += 1
+                    if len(res.notes) < 20:
+                        res.notes.append({"kind": "Crash", "index": info["family"],
+                                          "what": "library crashed the worker (signal %s); owned by %s, not by %s"
+                                                  % (info.get("signal"), "/".join(owners), prop)})
+                    log("note: the library crashed the worker in family %s (signal %s): %s's to report, not %s's; "
+                        "family left out" % (info["family"], info.get("signal"), "/".join(owners), prop))
+                    if res.foreign_crashes <= 200 and info["family"] + 1 < hi:
+                        pending.append((info["family"] + 1, hi, chunk_args))
+                    continue
                 if res.violation is None or info.get("family", 1 << 62) < res.violation.get("family", 1 << 62):
                     res.violation = dict(info, how="trap", line=trap, lo=lo)
                     viol_chunk_args = chunk_args
